@@ -4033,6 +4033,97 @@ def replay_unary_on_literal_variable(a):
     return out
 
 
+def test_data_per_spec(a):
+    """C16 (`test` structured vs plain vs validate): every test spec of a test file becomes exactly one test case - get_test_data folds over
+    ALL specs (std try_fold over the vector given) and its step pushes one TestData built from THIS spec (its name, its input converted by
+    PathAwareValue::try_from, its expectations - also an empty set of expectations) or fails when the input cannot be converted; no spec is
+    skipped"""
+    TS = struct_fields(a.src, "commands/test.rs", "TestSpec")
+    ex = a.exec(r"(?:reporters::test::structured::)?get_test_data::\{closure#0\}",
+                {"try_from": m_result_opq, RC_NEW: mirexec.m_identity, "unwrap_or_default": lambda ex, av: ex.opq(), "is_empty": lambda ex, av: ex.havoc("bool"),
+                 "len": lambda ex, av: ("int", ex.len_of(av[0])), "branch": mirexec.m_try_branch, "from_residual": mirexec.m_from_residual},
+                log=("push", "is_empty", "len"), unroll=1, max_paths=400, deepen=False)
+    a.fns.append("commands::reporters::test::structured::get_test_data::{closure#0}")
+    acc, spec = ex.arg_env["_2"], ex.arg_env["_3"]
+    inp, exp, nm = (ex.proj.get((spec[1], f".{TS.index(k)}")) if spec[0] == "opaque" else None for k in ("input", "expectations", "name"))
+    bad, n = [], 0
+    for p in ex.paths:
+        r = p.ret
+        if p.outcome != "return" or not r or r[0] != "enum" or r[1] != "Result":
+            bad.append(pc_term(p.pc))
+            continue
+        n += 1
+        tf = calls(p, "try_from")
+        pushes = [e for e in calls(p, "push") if len(e[2]) == 2]
+        if len(tf) != 1 or (inp is not None and tf[0][2][0] != inp):
+            bad.append(pc_term(p.pc))              # the input of THIS spec is converted exactly once on every path: nothing is skipped
+            continue
+        ttag = tf[0][3][2]
+        if pushes:
+            td = pushes[0][2][1]
+            ok = (len(pushes) == 1 and pushes[0][2][0] == acc and td[0] == "struct" and td[2].get("path_value") == tf[0][3][3]["Ok"]
+                  and (exp is None or td[2].get("expectations") == exp) and r[3].get("Ok") == acc)
+            good = f"(and (= {ttag} 0) (= {r[2]} 0))" if ok else "false"
+        else:
+            good = f"(and (= {ttag} 1) (= {r[2]} 1))"
+        bad.append(f"(and {pc_term(p.pc)} (not {good}))")
+    c1 = a.discharge("test/get_test_data/one-case-per-spec", ex, bad,
+                     f"get_test_data, one test spec ({n} paths): its input is converted exactly once; when that succeeds exactly one TestData holding that value and "
+                     "this spec's expectations (whatever they are) is appended and the accumulator passed on; when it fails the fold fails")
+    top = mirsmt.find_fn(a.mir, r"(?:reporters::test::structured::)?get_test_data")
+    shape = bool(re.search(r"as IntoIterator>::into_iter\((?:move|copy) _1\)", top)) and bool(re.search(r"as Iterator>::try_fold::<", top)) \
+        and not re.search(r"::(filter|filter_map|skip|skip_while|take|take_while|step_by|rev)::<|::(filter|skip|take|rev)\(", top)
+    a.ob.check("test/get_test_data/fold-over-all-specs", [], [], "false" if shape else "true",
+               "get_test_data: std try_fold over into_iter() of the vector of specs given, no filtering / skipping adaptor in between (degenerate solver part: "
+               "a fact read off the MIR of the function)")
+    item = a.ob.items[-1]
+    item["paths"], item["cut_by_unroll_bound"], item["unroll"] = 1, 0, 0
+    for c in (c1, item if item["status"] == "refuted" else None):
+        if c:
+            c["replay"] = replay_test_specs_without_expectations(a)
+            c["reproduced"] = c["replay"].get("reproduced", False)
+            a.candidates.append(c)
+
+
+def replay_test_specs_without_expectations(a):
+    """test files with specs that state no expectation / some / all: every output format reports the same test cases (names, order) and the
+    rules without an expectation as skipped"""
+    import os, shutil, subprocess, tempfile, json as _json
+    exe = a.cli()
+    if not exe:
+        return {"reproduced": False, "note": "native build failed"}
+    d = tempfile.mkdtemp(prefix="cfnverif_replay_")
+    out = []
+    env = dict(os.environ)
+    env["RUST_BACKTRACE"] = "0"
+    try:
+        open(os.path.join(d, "r.guard"), "w").write("rule r1 { a == 1 }\nrule r2 { b == 1 }\n")
+        text = ("- name: none\n  input:\n    a: 1\n    b: 1\n  expectations:\n    rules: {}\n"
+                "- name: some\n  input:\n    a: 1\n    b: 1\n  expectations:\n    rules:\n      r1: PASS\n"
+                "- name: all\n  input:\n    a: 1\n    b: 2\n  expectations:\n    rules:\n      r1: PASS\n      r2: FAIL\n")
+        open(os.path.join(d, "t.yaml"), "w").write(text)
+        pj = subprocess.run([exe, "test", "-r", os.path.join(d, "r.guard"), "-t", os.path.join(d, "t.yaml"), "-o", "json"], capture_output=True, text=True, env=env, timeout=60)
+        pp = subprocess.run([exe, "test", "-r", os.path.join(d, "r.guard"), "-t", os.path.join(d, "t.yaml")], capture_output=True, text=True, env=env, timeout=60)
+        try:
+            rep = _json.loads(pj.stdout)
+            rep = rep[0] if isinstance(rep, list) else rep
+            tcs = rep.get("Ok", rep).get("test_cases", [])
+            names = [t.get("name") for t in tcs]
+            skipped = {t.get("name"): sorted(x.get("name") for x in t.get("skipped_rules", [])) for t in tcs}
+        except Exception as e:
+            return {"reproduced": True, "mismatches": [{"problem": f"json output not readable: {e}", "stdout": pj.stdout[:300]}]}
+        if names != ["none", "some", "all"]:
+            out.append({"format": "json", "test_cases_reported": names, "expected": ["none", "some", "all"]})
+        elif skipped.get("none") != ["r1", "r2"] or skipped.get("some") != ["r2"]:
+            out.append({"format": "json", "skipped_rules": skipped, "expected": {"none": ["r1", "r2"], "some": ["r2"], "all": []}})
+        n_plain = len(re.findall(r"^Test Case #", pp.stdout, re.M))
+        if n_plain != 3 or pj.returncode != pp.returncode:
+            out.append({"plain_test_cases": n_plain, "exit_plain": pp.returncode, "exit_json": pj.returncode})
+        return {"reproduced": bool(out), "mismatches": out}
+    finally:
+        shutil.rmtree(d, ignore_errors=True)
+
+
 def scope_delegations(a):
     """the one-line scope methods: a scope that has no state of its own for a question hands it, unchanged, to the scope / recorder that
     has - and touches nothing else (in particular no memo table is written from a record passing through)"""
@@ -4172,7 +4263,7 @@ SITES = {
     "C12": [structured_report, junit_test_case, data_input_wiring, data_input_params_wiring, structured_merge_closure, test_get_by_result, test_structured_evaluate, report_combine_union],
     "C07": [flags_verdict_wiring, reporter_chain, library_entry_wiring, sarif_one_result_per_message, report_combine_union, structured_report, junit_test_case, validate_execute_step,
             data_input_params_wiring, structured_merge_closure],
-    "C16": [test_generic_report, test_get_by_result, test_get_by_rules, test_structured_evaluate, test_result_exit_code, test_junit_counts],
+    "C16": [test_generic_report, test_get_by_result, test_get_by_rules, test_structured_evaluate, test_result_exit_code, test_junit_counts, test_data_per_spec],
     "C02": [param_ctx_end_record, scope_delegations],
     "C09": [report_partition, report_rule_listing, report_clause_content, report_combine_union, unary_empty_on_expr, param_ctx_end_record],
     "C10": [report_clause_content],
